@@ -670,6 +670,22 @@ pub fn c18(ctx: &mut Ctx) -> Option<Failure> {
                     return fail("ReManager::start_char", format!("{} c={}", show(&ast), c), format!("{}", exp || sampled), format!("{}", got));
                 }
             }
+            // start_class agrees with the emptiness of the class derivative, for every valid class
+            let mut cids: Vec<ClassId> = (0..e.char_ranges().count()).map(ClassId::Interval).collect();
+            if !e.empty_complement() {
+                cids.push(ClassId::Complement);
+            }
+            for cid in cids {
+                let d = match m.class_derivative(e, cid) {
+                    Ok(d) => d,
+                    Err(_) => continue,
+                };
+                let exp = !m.is_empty_re(d);
+                match m.start_class(e, cid) {
+                    Ok(b) if b == exp => {}
+                    other => return fail("ReManager::start_class", format!("{} class {:?}", show(&ast), cid), format!("Ok({})", exp), format!("{:?}", other)),
+                }
+            }
             if m.start_class(e, ClassId::Interval(e.num_deriv_classes())).is_ok() {
                 return fail("ReManager::start_class(bad id)", show(&ast), "Err(BadClassId)".into(), "Ok".into());
             }
